@@ -1241,13 +1241,13 @@ func genC05(g *h.G) {
 	for i := 0; i < 40; i++ {
 		g.Emit("hm.minbits", strconv.FormatUint(g.U64(), 10))
 	}
-	nMaps := g.Scale(700, 14000)
+	nMaps := g.Scale(2500, 30000)
 	for i := 0; i < nMaps; i++ {
 		genOneMap(g)
 	}
 	genBoundary(g)
-	genAug(g, g.Scale(120, 2500))
-	genMalformed(g, g.Scale(300, 6000))
+	genAug(g, g.Scale(300, 4000))
+	genMalformed(g, g.Scale(800, 12000))
 	genReal(g)
 }
 
